@@ -11,6 +11,7 @@ import (
 	"math"
 	"net"
 	"net/netip"
+	"net/textproto"
 	"net/url"
 	"reflect"
 	"strings"
@@ -60,6 +61,9 @@ var (
 	tNum      = reflect.TypeOf(jx.Num{})
 	tReader   = reflect.TypeOf((*io.Reader)(nil)).Elem()
 )
+
+// sharedPartHeader is given to many multipart files, as a caller with a package-level header would do.
+var sharedPartHeader = textproto.MIMEHeader{"X-Part": {"verif"}}
 
 var coreStrings = []string{"a", "abc", "x1", "A_b", "hello", "Z", "0", "v_2", "value"}
 var hostileStrings = []string{"", " ", "a b", "a,b", "a.b", "a;b", "a=b", "a|b", "a&b", "a/b", "a?b", "a#b", "a%b", "a+b", "%zz", "%2F", "é", "😀", "日本", "\"", "\\", "a\nb", "\t", "a'b", "<x>", "{y}", "null", "true", "1e3", "-", "~", "a:b", "@", "[", "]"}
@@ -365,6 +369,11 @@ func (b *Builder) fill(t *rapid.T, v reflect.Value, depth int) {
 			v.FieldByName("Name").SetString(rapid.SampledFrom(coreStrings).Draw(t, "filename"))
 			v.FieldByName("File").Set(reflect.ValueOf(bytes.NewReader(data)))
 			v.FieldByName("Size").SetInt(int64(len(data)))
+			if h := v.FieldByName("Header"); h.IsValid() && h.Type() == reflect.TypeOf(sharedPartHeader) && rapid.Bool().Draw(t, "sharedheader") {
+				// callers commonly give all their parts ONE header value (a package-level variable): the
+				// library has to copy it before adding Content-Disposition
+				h.Set(reflect.ValueOf(sharedPartHeader))
+			}
 			return
 		}
 		for i := 0; i < rt.NumField(); i++ {
